@@ -4,6 +4,8 @@
 import GfsModel.ListSeqs
 import GfsModel.SeqOps
 import GfsProofs.ListLemmas
+import GfsGen.Facts
+import GfsModel.ExpectedSrc
 
 namespace Gfs.Props.C05
 open Gfs Gfs.Spec Gfs.Proofs
@@ -63,5 +65,10 @@ theorem C05_hidden (items : List FileItem) (o : ListOpts) (hh : o.hidden = false
 /-- the listing never fails -/
 theorem C05_total (o : ListOpts) (items : List FileItem) :
     ∃ r, scanItems o none items [] [] = .ok r := scanItems_ok o items [] []
+
+/-- the declarations of /repo this property's model and specification were written from are,
+    on this run, the ones the model was last aligned with (digest of their comment- and
+    layout-insensitive fingerprints, re-extracted by tools/gofacts) -/
+theorem C05_source : Gfs.Gen.sourceDigestC05 = Gfs.expectedSourceDigestC05 := by decide
 
 end Gfs.Props.C05
